@@ -1271,6 +1271,11 @@ class Interp:
                 if v.cls is not None and v.cls.builtin_base == 'tuple':
                     return len(self.st.heap[v]['__items__']) > 0
                 return True
+        if isinstance(v, AbsFun) and getattr(v, 'truthy', None) is not None:
+            # a user-supplied callable *object* (it may define __bool__ / __len__: a recorder that subclasses list ...):
+            # its truth value is whatever the contract says, typically an unconstrained boolean
+            t = v.truthy
+            return t if isinstance(t, bool) else self.truth_term(t)
         if isinstance(v, (Closure, Builtin, AbsFun, BoundMethod, ClassRef, TypeTag, ModRef)):
             return True
         if isinstance(v, float) and v != v:
